@@ -37,10 +37,11 @@ Definition uri_of (c: kv) : option string :=
 (* one correspondence case: class table, (all_refs, dialect, ref_prefix), with_definitions, with_dialect_uri,
    builder?, roots, expected canonical documents, expected definitions, expected RecursionError *)
 Definition mcase : Type :=
-  (ctab * kv * (kv * kv * kv) * (bool * bool) * bool * list ty * list string * list (string * string) * bool)%type.
+  (list (string * rcls) * kv * (kv * kv * kv) * (bool * bool) * bool * list ty * list string * list (string * string) * bool)%type.
 
 Definition corr_ok (c: mcase) : bool :=
-  let '(E, pctx, (ar, D, p), (wd, wu), builder, roots, exp_docs, exp_defs, exp_rec) := c in
+  let '(ER, pctx, (ar, D, p), (wd, wu), builder, roots, exp_docs, exp_defs, exp_rec) := c in
+  let E := digest_tab ER in
   match ctx_for builder wd pctx ar D p with
   | Ok ctx =>
       match cfg_of_ctx ctx with
